@@ -1,0 +1,25 @@
+//go:build verif
+// +build verif
+
+package network
+
+import (
+	"com.tuntun.rangers/node/src/middleware/log"
+)
+
+// VerifC07HandleTransactionGot feeds one TransactionGotMsg (body = marshalled transaction
+// slice, as a peer sends it) through the real WorkerConn.handleMessage, in-process and without
+// a socket. Verification harness only.
+func VerifC07HandleTransactionGot(body []byte, from string) error {
+	if bizLogger == nil {
+		bizLogger = log.GetLoggerByIndex(log.P2PBizLogConfig, "0")
+	}
+	wc := &WorkerConn{}
+	wc.logger = log.GetLoggerByIndex(log.P2PLogConfig, "0")
+	data, err := marshalMessage(Message{Code: TransactionGotMsg, Body: body})
+	if err != nil {
+		return err
+	}
+	wc.handleMessage(data, from)
+	return nil
+}
